@@ -107,6 +107,10 @@ func runCase(c *core.Ctx, i int) {
 		raggedCase(c, rng)
 		return
 	}
+	if i%59 == 31 {
+		nextStagesCase(c, rng)
+		return
+	}
 	if i%23 == 7 {
 		loopbackCase(c, rng)
 		return
